@@ -147,6 +147,15 @@ def _mul(e1, e2):
     return out
 
 
+def _conjuncts(c):
+    if z3.is_and(c):
+        out = []
+        for x in c.children():
+            out += _conjuncts(x)
+        return out
+    return [c]
+
+
 def normalise(t, k):
     """t: z3 arithmetic term, k: z3 Int constant.  Returns list of (guard, coeff, atomterm|None) with guard/atom
     mentioning k and coeff free of k.  guard is True or a z3 Bool."""
@@ -176,8 +185,26 @@ def normalise(t, k):
         return [(g, c * (z3.RealVal(1) / ch[1]), a) for g, c, a in normalise(ch[0], k)]
     if kind == z3.Z3_OP_ITE:
         c, a, b = ch
+        if contains(c, k):
+            if z3.is_not(c):
+                return normalise(z3.If(c.arg(0), b, a), k)
+            if z3.is_or(c):
+                # ite(c1 or rest, a, b) = ite(c1, a, ite(rest, a, b)): keeps the guards of atoms conjunctive
+                cs = c.children()
+                rest = z3.Or(cs[1:]) if len(cs) > 2 else cs[1]
+                return normalise(z3.If(cs[0], a, z3.If(rest, a, b)), k)
         ea, eb = normalise(a, k), normalise(b, k)
         if contains(c, k):
+            # split the condition into its k-free conjuncts F (they become an indicator coefficient) and the rest D
+            free, dep = [], []
+            for cj in _conjuncts(c):
+                (dep if contains(cj, k) else free).append(cj)
+            if free and dep:
+                F = z3.And(free) if len(free) > 1 else free[0]
+                D = z3.And(dep) if len(dep) > 1 else dep[0]
+                ind = z3.If(F, z3.RealVal(1), z3.RealVal(0))
+                nind = z3.If(F, z3.RealVal(0), z3.RealVal(1))
+                return ([(conj(D, g), co * ind, at) for g, co, at in ea] + [(conj(z3.Not(D), g), co * ind, at) for g, co, at in eb] + [(g, co * nind, at) for g, co, at in eb])
             return [(conj(c, g), co, at) for g, co, at in ea] + [(conj(z3.Not(c), g), co, at) for g, co, at in eb]
         ind = z3.If(c, z3.RealVal(1), z3.RealVal(0))
         nind = z3.If(c, z3.RealVal(0), z3.RealVal(1))
